@@ -47,6 +47,14 @@ REGISTRY = [
      ["tools/replay_real.sh", "findings/D17_procfs_magiclink_relative_body.rs", "verif_replay_d17"]),
     (r"pstatic\.walk_invariant|equals_the_kernel_walk_and_final_component_table",
      ["tools/replay_real.sh", "findings/D13_procfs_absolute_subpath.rs", "verif_replay_d13"]),
+    (r"no_follow_fallback_only_when_the_link_probe_says_not_a_symlink",
+     ["tools/replay_real.sh", "findings/D18_open_follow_probe_failure.rs", "verif_replay_d18"]),
+    (r"eagain_is_retried_then_reported_as_a_safety_violation",
+     ["tools/replay_real.sh", "findings/D19_D20_oneshot_open.rs", "verif_replay_d19"]),
+    (r"creation_flags_refused_whatever_the_backend",
+     ["tools/replay_real.sh", "findings/D19_D20_oneshot_open.rs", "verif_replay_d20"]),
+    (r"the_link_owner_is_compared_with_the_fsuid_like_the_kernel_does",
+     ["tools/replay_real.sh", "findings/D21_fsuid_vs_euid.rs", "verif_replay_d21"]),
     (r"static GLOBAL_PROCFS_HANDLE",
      ["tools/replay_real.sh", "findings/D5c_global_procfs_init.rs", "verif_replay_d5c"]),
     (r"static PROTECTED_SYMLINKS_SYSCTL",
